@@ -129,14 +129,15 @@ class AddLoop(S.LoopContract):
     def inv(self, I):
         eng, st = I.eng, I.st
         I.temps("name", "value")
-        I.covered.add("command_args")
+        acc = I.a("command_args")
+        I.covered.add(acc)
         hx = eng.lx
         j = I.j
         keys = DKEYS(hx["args_did"])
         ok = lambda k: z3.Or(DHAS_(hx["inputs_did"], keys[k]), eng.dyn_truthy(hx["allow_extra"]))
         I.forall_k("every argument so far is declared", lambda k: z3.Implies(z3.And(k >= 0, k < j), ok(k)))
         if I.mode == "abstract":
-            st.env["command_args"] = st.alloc(Bag("command_args"))
+            st.env[acc] = st.alloc(Bag("command_args"))
 
 
 def _exc_fields(st, exc):
@@ -310,7 +311,11 @@ class AddCommandContract(object):
 
     def apply(self, eng, st, f, args, kwargs):
         st.log.append(("add_command", args))
-        node = st.env.get("node")
+        roles = eng.lx.get("roles", {})
+        node = st.env.get(roles.get("node", "node"))
+        argsvar = roles.get("arguments", "arguments")
+        if getattr(eng, "from_source_site", False) and node is None:
+            raise Unsupported("from_source: add_command is not called inside the loop over the command nodes")
         if node is not None and getattr(eng, "from_source_site", False):
             # what from_source must hand over: the library's class for the node's command name, the node's result name and line
             nd = Val.ref(eng.to_dyn(st, node))
@@ -323,8 +328,8 @@ class AddCommandContract(object):
                        assume_after=False)
             eng.oblige(st, eng.current.key + "/add_command receives the node's line", z3.BoolVal(False) if ln is None else eng.to_dyn(st, ln) == FLD("lineno")(nd), kind="call",
                        meta={"clause": "lineno"}, assume_after=False)
-            eng.oblige(st, eng.current.key + "/add_command receives the arguments built for this node", z3.BoolVal(args[2] is st.env.get("arguments") or (
-                isinstance(args[2], Ref) and isinstance(st.env.get("arguments"), Ref) and args[2].oid == st.env["arguments"].oid)), kind="call", meta=m, assume_after=False)
+            eng.oblige(st, eng.current.key + "/add_command receives the arguments built for this node", z3.BoolVal(args[2] is st.env.get(argsvar) or (
+                isinstance(args[2], Ref) and isinstance(st.env.get(argsvar), Ref) and args[2].oid == st.env[argsvar].oid)), kind="call", meta=m, assume_after=False)
         forks = [(nm, st.fork()) for nm in ("DuplicateResult", "MissingParameters", "NoSuchParameter")]
         yield st, None
         for nm, s2 in forks:
@@ -414,9 +419,11 @@ def install_from_source(eng):
         orig_set_item = ModelMixin.set_item
 
         def set_item(self, st, o, idx, v):
-            if getattr(self, "from_source_site", False) and isinstance(o, Ref) and isinstance(st.env.get("arguments"), Ref) and o.oid == st.env["arguments"].oid \
-                    and st.env.get("argument_node") is not None:
-                an = Val.ref(self.to_dyn(st, st.env["argument_node"]))
+            roles = getattr(self, "lx", {}).get("roles", {}) if getattr(self, "from_source_site", False) else {}
+            argsvar, anvar = roles.get("arguments", "arguments"), roles.get("argument_node", "argument_node")
+            if getattr(self, "from_source_site", False) and isinstance(o, Ref) and isinstance(st.env.get(argsvar), Ref) and o.oid == st.env[argsvar].oid \
+                    and st.env.get(anvar) is not None:
+                an = Val.ref(self.to_dyn(st, st.env[anvar]))
                 key = self.current.key
                 if isinstance(v, Ref) and isinstance(st.store.get(v.oid), Obj):
                     ob = st.get(v)
@@ -474,6 +481,16 @@ def verify_from_source(repo):
         FROM + ".resolve_list": ResolveListContract(),
     }
     loops = [n for n in _ordered(fi.node) if isinstance(n, (ast.For, ast.While))]
+    # the locals the obligations talk about, by role: the outer loop's node, the inner loop's argument node, the dict handed to add_command
+    roles = {}
+    if len(loops) >= 2 and isinstance(loops[0].target, ast.Name) and isinstance(loops[1].target, ast.Name):
+        roles["node"], roles["argument_node"] = loops[0].target.id, loops[1].target.id
+        calls = [c for c in ast.walk(loops[0]) if isinstance(c, ast.Call) and isinstance(c.func, ast.Attribute) and c.func.attr == "add_command"]
+        if len(calls) == 1 and len(calls[0].args) >= 3 and isinstance(calls[0].args[2], ast.Name):
+            roles["arguments"] = calls[0].args[2].id
+    if len(roles) != 3:
+        raise Unsupported("from_source does not have the shape `for node: ... for argument_node: ... add_command(cls, name, arguments, line)`")
+    eng.lx["roles"] = roles
     for i, n in enumerate(loops):
         if i == 0:
             eng.loop_contracts[(fi.key, "for", i)] = FromOuterLoop(sorted(assigned_names(n)))
@@ -710,6 +727,15 @@ def verify_cli(repo):
     st.kterms.append(z3.IntVal(0))
     label = fi.key
     m = lambda c: {"clause": c}
+    # locals by role: the caught exception and the list of lines read from the file
+    handlers = [h for h in ast.walk(fi.node) if isinstance(h, ast.ExceptHandler) and h.name]
+    reads = [a.targets[0].id for a in ast.walk(fi.node) if isinstance(a, ast.Assign) and len(a.targets) == 1 and isinstance(a.targets[0], ast.Name)
+             and any(isinstance(c, ast.Call) and isinstance(c.func, ast.Attribute) and c.func.attr == "readlines" for c in ast.walk(a.value))]
+    if len(handlers) != 1 or len(reads) != 1:
+        recs.append({"name": label + "/supported", "status": "unknown", "backend": "engine", "time_s": 0, "function": fi.key, "clause": "cli",
+                     "reason": "unsupported: main does not have one named exception handler and one list read with readlines()"})
+        return recs, [fi.describe()]
+    exc_var, lines_var = handlers[0].name, reads[0]
     args = {"library": Sym("str", smt.fresh("library", z3.StringSort())), "path": Sym("str", smt.fresh("path", z3.StringSort())),
             "libraries": TupleV([])}
     try:
@@ -729,12 +755,12 @@ def verify_cli(repo):
             o = s1.get(exc)
             if o.cls.name == "SystemExit":
                 envx = ([ev[2] for ev in s1.log if ev[0] == "exit"] or [{}])[-1]
-                ex = envx.get("ex")
+                ex = envx.get(exc_var)
                 if isinstance(ex, ExcSym) and isinstance(ex.fields.get("lineno"), Sym):
                     # C11: the marked line is the line the error carries
                     isa = ex.is_a.get("ProgramError")
                     ln = z3.ToInt(ex.fields["lineno"].t)
-                    lines = envx.get("lines")
+                    lines = envx.get(lines_var)
                     seq = eng.list_seq(s1.get(lines)) if isinstance(lines, Ref) else None
                     evs = [ev[1] for ev in s1.log if ev[0] == "stderr"]
                     if seq is None:
